@@ -4,6 +4,8 @@ import itertools
 from ..core import Acc, Stage
 from ..scope import graphs
 
+FORMAT_SPECS = ('h', 'A', 'a', 'm', '!s', '!x', '!z', '!b', 'hm')
+
 META = {
     'technique': 'bounded exhaustive enumeration of reactions built from small molecules by <=2 ground-truth edits x role shapes x role-internal orders x consistent renumberings on the real reaction/CGR code',
     'rule': 'one state per (reactant set, edit set, role shape, order/renumbering); the oracle is the recorded edit list',
@@ -217,6 +219,7 @@ def run_cases(shard):
                 check_io(acc, r, tag, bad)
                 # order-free identity: every permutation inside every role
                 ref_s, ref_h = str(r), hash(r)
+                ref_f = {spec: format(r, spec) for spec in FORMAT_SPECS}
                 for pr in itertools.permutations(rs):
                     for pp in itertools.islice(itertools.permutations(ps), 6):
                         acc.transitions += 1
@@ -224,6 +227,20 @@ def run_cases(shard):
                         if str(r2) != ref_s or hash(r2) != ref_h or not (r2 == r):
                             bad('reaction string depends on the order of molecules inside a role', case=tag, got=str(r2), expected=ref_s)
                             break
+                        # the same under every format option; '!c' is the documented exception: it keeps the given order
+                        for spec in FORMAT_SPECS:
+                            acc.transitions += 1
+                            if format(r2, spec) != ref_f[spec]:
+                                bad('formatted reaction string depends on the order of molecules inside a role :: %s' % spec, case=tag, got=format(r2, spec), expected=ref_f[spec])
+                                break
+                        else:
+                            kept = format(r2, '!c!x').split('>')
+                            want = ['.'.join(format(m, '!x') for m in role) for role in (pr, gs, pp)]
+                            if kept != want:
+                                bad("format option '!c' does not keep the given order of molecules", case=tag, got=kept, expected=want)
+                                break
+                            continue
+                        break
                 if ps and rs:
                     cgr = check_cgr(acc, r, u if not gs else (u | gs[0]), eds, tag, bad)
                     if cgr is not None:
